@@ -28,6 +28,15 @@ def family(ctx):
     for lo in LD:
         out.append(progs.render({"x": 2}, progs.frame([[f"await 0 1 {lo}", "st 1 1 rel"], [f"await 1 1 {lo}"]],
                                                       ["st 0 1 rel"], [])))
+    # the writer goes on after publishing the flag, and both take a ticket: the waiter may leave its loop before or
+    # after the writer's next step (waiter spawned after the writer / as main / next to a third thread)
+    for lo in LD:
+        out.append(progs.render({"x": 2}, progs.frame([[f"await 0 1 {lo}", "fadd 1 1 rlx"]], ["st 0 1 rel", "fadd 1 1 rlx"], [])))
+        out.append(progs.render({"x": 2}, progs.frame([["st 0 1 rel", "fadd 1 1 rlx"]], [f"await 0 1 {lo}", "fadd 1 1 rlx"], [])))
+        out.append(progs.render({"x": 2}, progs.frame([["st 0 1 rel", "fadd 1 1 rlx"], [f"await 0 1 {lo}", "fadd 1 1 rlx"]], [], [])))
+        out.append(progs.render({"x": 2}, progs.frame([[f"await 0 1 {lo}", "fadd 1 1 rlx"], ["st 0 1 rel", "fadd 1 1 rlx"]], [], [])))
+        out.append(progs.render({"x": 2}, progs.frame([["park", "st 0 1 rel", "fadd 1 1 rlx"],
+                                                       ["unpark 1", f"await 0 1 {lo}", "fadd 1 1 rlx"]], [], [])))
     # waiter that also takes a lock
     out.append(progs.render({"x": 1, "m": 1, "c": 1}, progs.frame([["await 0 1 acq", "lock 0", "crd 0", "unlock 0"]],
                                                                    ["lock 0", "cwr 0 3", "unlock 0", "st 0 1 rel"], [])))
